@@ -35,6 +35,13 @@ class SemLimit(Exception):
     pass
 
 
+class PE(dict):
+    """A projection element (the driver's dict) made hashable, so that pointer values can be parts of terms used as keys."""
+
+    def __hash__(self):
+        return hash((self.get("k"), self.get("name"), self.get("i"), self.get("variant"), self.get("offset")))
+
+
 def agg(adt, variant, *payload):
     return mk("agg", adt, variant, tuple((str(i), v) for i, v in enumerate(payload)))
 
@@ -498,7 +505,7 @@ class Sem:
             return self.op(fr, rv["op"], st)
         if k in ("ref", "rawptr"):
             key, path = self.locate(fr, rv["place"], st)
-            path = tuple(self._fix_index(fr, pe, st) for pe in path)
+            path = tuple(PE(self._fix_index(fr, pe, st)) for pe in path)
             return mk("ptr", key, path, bool(rv.get("mut")))
         if k == "cast":
             v = self.op(fr, rv["op"], st)
@@ -863,7 +870,7 @@ class Sem:
             term = mk("r", idx)
         for i, a in enumerate(args):
             if a[0] == "ptr" and a[3]:
-                if a[1][0] == "root" and self.stable_roots and a[1][1][0] in ("param", "upvar") and not a[2]:
+                if a[1][0] == "root" and self.stable_roots and a[1][1][0] in ("param", "upvar"):
                     continue
                 if a[1][0] == "root" and st.inloop:
                     self._heap_in_loop = True
@@ -892,8 +899,17 @@ class Sem:
                 out.append((s2, ret))
             elif kind == "panic":
                 out.append((s2, PANIC))
+            elif kind == "loopback":
+                # a trip round a loop of the inlined body ends the path: it is a leaf of the whole summary
+                lf = Leaf("loopback", s2, self.resolve(ret, s2), site)
+                for k, val in s2.mem.items():
+                    if k[0] == "root":
+                        rv = self.resolve(val, s2)
+                        if rv != k[1]:
+                            lf.writes[k[1]] = rv
+                self._leaves.append(lf)
             else:
-                raise SemLimit("loop in inlined %s" % cb.path)
+                raise SemLimit("irreducible loop in inlined %s" % cb.path)
         return out
 
     def _call(self, fr, t, st, bb):
@@ -1182,7 +1198,7 @@ class Sem:
             if pay is None:
                 out.append((s2, agg(en, var)))
             else:
-                pe = ({"k": "downcast", "variant": var}, {"k": "field", "i": 0, "name": "0"})
+                pe = (PE({"k": "downcast", "variant": var}), PE({"k": "field", "i": 0, "name": "0"}))
                 out.append((s2, agg(en, var, mk("ptr", a[1], tuple(a[2]) + pe, a[3]))))
         return out
 
